@@ -34,6 +34,13 @@ def run_check(prop_id, tier):
     seed = core.seed_value()
     total = core.Total()
     tasks = _regression_tasks(prop_id) + list(mod.plan(tier, seed))
+    # the library's optional internal assertions must never change behaviour: every second generated-case shard
+    # runs with ANYTREE_ASSERTIONS=1 (modules that set "assertions" themselves, like C01, are left alone)
+    flip = 0
+    for task in tasks:
+        if "assertions" not in task and task.get("engine") in ("hyp", "blind-hyp", "systematic"):
+            task["assertions"] = flip % 2
+            flip += 1
     core.run_tasks(prop_id, tasks, total)
     wall = time.time() - t0
 
